@@ -5,6 +5,7 @@
 (*      [ev |-> "canonical", v]   [ev |-> "sample", v, mask]                    *)
 (*      [ev |-> "flatten", v, len, flat_size]                                   *)
 (*      [ev |-> "eq", other |-> space term, res, hash_ok, hash_equal]           *)
+(*      [ev |-> "eq_near", res, res_sym]   == against a space with one bound nudged *)
 (*      [ev |-> "gym", ok, eq] >>]                                              *)
 EXTENDS Integers, Sequences, FiniteSets, TLC, TLCExt, Json, IOUtils
 VARIABLES tid, l, rej
@@ -32,6 +33,8 @@ Clauses(ev) ==
          [EqualityIsStructural   |-> ev.open \/ (ev.res = S!Eq(Sp, ev.other)),
           HashingDoesNotRaise    |-> ev.hash_ok,
           EqualSpacesHashEqually |-> (S!Eq(Sp, ev.other) \/ ev.res) => ev.hash_equal]
+    [] ev.ev = "eq_near" ->   \* the same structure with one Box bound moved by 2e-6 relative: another space, in both directions
+         [EqualityIsExactInTheParameters |-> ~ev.res /\ ~ev.res_sym]
     [] OTHER ->
          [GymRoundTripSucceeds       |-> ev.ok,
           GymRoundTripPreservesSpace |-> ev.ok => ev.eq]
